@@ -5,6 +5,7 @@ package services
 import (
 	"context"
 	"math"
+	"strings"
 	"time"
 
 	"github.com/marekgalovic/anndb/cluster"
@@ -199,8 +200,27 @@ func verifMetadata() map[string]string {
 	switch verifrt.Choose("meta", verifrt.Bound("metashapes", 2)) {
 	case 1:
 		return map[string]string{"k": "v"}
+	case 2:
+		// over-long key: the snapshot format stores the key length in one byte
+		verifrt.Tag("metadata-key-longer-than-255")
+		return map[string]string{strings.Repeat("k", 256): "v"}
+	case 3:
+		// over-long value: the snapshot format stores the value length in two bytes
+		verifrt.Tag("metadata-value-longer-than-65535")
+		return map[string]string{"k": strings.Repeat("v", 65536)}
 	}
 	return nil
+}
+
+// verifLevel: BatchItem.level is an ordinary wire field any client can set
+func verifLevel(name string) int32 {
+	switch verifrt.Choose(name, verifrt.Bound("levelshapes", 3)) {
+	case 1:
+		return -2
+	case 2:
+		return 1 << 28
+	}
+	return 0
 }
 
 func verifK() uint32 {
@@ -260,9 +280,9 @@ func VerifC12() {
 	case 2:
 		s.data.Remove(ctx, &pb.RemoveRequest{DatasetId: did, Id: verifBytes("id", known)})
 	case 3, 4, 5:
-		items := []*pb.BatchItem{{Id: verifBytes("id", known), Value: verifVector("value", dim), Metadata: verifMetadata()}}
+		items := []*pb.BatchItem{{Id: verifBytes("id", known), Value: verifVector("value", dim), Metadata: verifMetadata(), Level: verifLevel("level")}}
 		if verifrt.Choose("second-item", 2) == 1 {
-			items = append(items, &pb.BatchItem{Id: verifBytes("id2", known), Value: verifVector("value2", dim)})
+			items = append(items, &pb.BatchItem{Id: verifBytes("id2", known), Value: verifVector("value2", dim), Level: verifLevel("level2")})
 		}
 		req := &pb.BatchRequest{DatasetId: did, Items: items}
 		switch rpc {
@@ -274,7 +294,7 @@ func VerifC12() {
 			s.data.BatchRemove(ctx, req)
 		}
 	case 6, 7, 8:
-		items := []*pb.BatchItem{{Id: verifBytes("id", known), Value: verifVector("value", dim), Metadata: verifMetadata()}}
+		items := []*pb.BatchItem{{Id: verifBytes("id", known), Value: verifVector("value", dim), Metadata: verifMetadata(), Level: verifLevel("level")}}
 		req := &pb.PartitionBatchRequest{DatasetId: did, PartitionId: verifBytes("partition-id", partId), Items: items}
 		switch rpc {
 		case 6:
@@ -306,11 +326,37 @@ func VerifC12() {
 	case 16:
 		// a second create with another symbolic shape (zero counts, undefined metric)
 		s.catalogue.Create(ctx, &pb.Dataset{Dimension: uint32(verifrt.IntIn("dimension2", 0, 1)), PartitionCount: uint32(verifrt.IntIn("partition_count2", 0, 1)), ReplicationFactor: uint32(verifrt.IntIn("replication_factor2", 0, 2))})
+	case 17:
+		// a create that fills in the fields the server is supposed to own, with extreme counts
+		req := &pb.Dataset{Dimension: 1, PartitionCount: 1, ReplicationFactor: 1}
+		switch verifrt.Choose("hostile-create", verifrt.Bound("createshapes", 5)) {
+		case 0:
+			req.Id = []byte{1, 2, 3}
+			req.Partitions = []*pb.Partition{{Id: []byte{1}, NodeIds: []uint64{77}}, nil}
+			req.Size = 5
+		case 1:
+			req.PartitionCount = math.MaxUint32
+			verifrt.Tag("partition-count-2^32-1")
+		case 2:
+			req.ReplicationFactor = math.MaxUint32
+		case 3:
+			req.Dimension = math.MaxUint32
+		case 4:
+			req.PartitionCount = 2
+			req.Partitions = []*pb.Partition{{Id: dsId, NodeIds: nil}}
+		}
+		s.catalogue.Create(ctx, req)
 	}
 	verifrt.Reach("handler-returned")
 	// everything the request left behind must have been applied without killing the node;
 	// a follow-up well-formed request still gets an answer
 	verifSettle(nil)
 	s.catalogue.List(&pb.ListDatasetsRequest{}, &verifListStream{})
+	// and what the node holds now can be snapshotted and restored: a replica that
+	// restarts from (or is sent) a snapshot of the state this request produced must not fail
+	if verifrt.Bound("snaprestore", 1) == 1 {
+		_, rerr := storage.VerifSnapshotRestoreAll(s.dm)
+		verifrt.Assert(rerr == nil, "snapshot-of-resulting-state-restores")
+	}
 	verifrt.Reach("end")
 }
